@@ -236,7 +236,7 @@ SPEC = Property(
     layers=[
         Layer("outcome-scripts", run_case, enumerate=enum_scripts, exhaustive=True,
               space="14^1..14^3 scripts x 2 frames (quick: the longest scripts in one frame), 22-attempt runs, 8 host sets x 4 scripts", min_nontrivial=1500),
-        Layer("generated", run_case, strategy=histories, n={"quick": 3000, "thorough": 80000}, min_nontrivial=500),
+        Layer("generated", run_case, strategy=histories, n={"quick": 12000, "thorough": 150000}, min_nontrivial=500),
     ],
     assumptions=["bounded liveness on the virtual clock: next attempt within 60 s + epsilon, waiter within its own timeout or 40 s",
                  "the first attempt after an established session is lost may be immediate; the simulated accessory keeps a session for > 0 s",
